@@ -60,7 +60,7 @@ pub fn run(max_n: usize, shards: usize, outdir: &str) {
                 g_n(b as u128),
                 g_bool(hint_consistent)
             ));
-            meta[s].push(json!({"n": n, "k": k, "yielded": vals.len(), "binom": b,
+            meta[s].push(json!({"n": n, "k": k, "yielded": vals.len(), "binom": b, "panicked": r.is_err(), "hint_bounds_equal": hint_consistent || r.is_err(),
                 "first": vals.first(), "last": vals.last()}));
             idx += 1;
         }
